@@ -246,7 +246,11 @@ fn step_case(c: &Case, last: &St, act: Act) -> (St, bool) {
     let mut bad = None;
     match act {
         Act::Next => {
-            let before = last.it.dbg();
+            // The Debug rendering is only needed to observe the prefilter
+            // counters; a yield that leaves the state unchanged would show up
+            // as a disagreement with the (finite) reference sequence anyway.
+            let watch = c.family.starts_with("PF");
+            let before = if watch { last.it.dbg() } else { String::new() };
             let got = st.it.next();
             let exp = c.reference.get(last.taken as usize).copied();
             if got != exp {
@@ -255,7 +259,7 @@ fn step_case(c: &Case, last: &St, act: Act) -> (St, bool) {
                 st.post += 1;
             } else {
                 st.taken += 1;
-                let after = st.it.dbg();
+                let after = if watch { st.it.dbg() } else { String::from("-") };
                 if after == before {
                     bad = Some(format!("next() yielded {:?} but left the iterator unchanged (would never terminate)", got));
                 }
@@ -414,7 +418,7 @@ fn build_cases(thorough: bool, families: &str, max_cases: usize) -> Vec<Case> {
         }
     }
     if families.contains("ln") {
-        let lens: &[usize] = if thorough { &[33, 40, 65, 100] } else { &[33, 40] };
+        let lens: &[usize] = if thorough { &[33, 40, 65] } else { &[33] };
         for n in spaces::ln_needles(lens, if thorough { 3 } else { 2 }) {
             let hays = spaces::factor_haystacks(&n, None, 2, if thorough { 6 } else { 3 }, 4 * n.len() + 64);
             let n = leak_bytes(&n);
@@ -433,6 +437,22 @@ fn build_cases(thorough: bool, families: &str, max_cases: usize) -> Vec<Case> {
                 let h = leak_bytes(&h);
                 push(false, Source::Finder, n, h, "PF");
                 push(false, Source::Top, n, h, "PF");
+            }
+        }
+    }
+    if families.contains("zoo") {
+        // the prefilter is first driven inert (70 false candidates at gap 2),
+        // then the iterator meets every factor haystack of the needle
+        for n in pf_needles() {
+            let p = Pair::new(&n).expect("pair");
+            let prefix = spaces::pf_haystack(&n, p.index1() as usize, p.index2() as usize, b'.', 0, 70, 2, None);
+            let zoo = spaces::factor_haystacks(&n, None, 1, 2, 4 * n.len() + 64);
+            let n = leak_bytes(&n);
+            for z in zoo {
+                let mut h = prefix.clone();
+                h.extend_from_slice(&z);
+                let h = leak_bytes(&h);
+                push(false, Source::Finder, n, h, "PF+zoo");
             }
         }
     }
@@ -562,8 +582,26 @@ pub fn run(args: &Args, thorough: bool, total: &mut Report, bounds: &mut Map<Str
         }
     });
     total.merge(rep);
+    // (1b) SF, lazily generated: short needles over {a,b,c} against pairs /
+    // triples of their own near-occurrences, padded past the Rabin-Karp cut-off
+    let sf_needles = spaces::AllStrings { letters: b"abc".to_vec(), minlen: 1, maxlen: if thorough { 4 } else { 3 } }.all();
+    let sf_cases = AtomicU64::new(0);
+    let rep = mcore::par::run_items(&sf_needles, |_, needle, r| {
+        for three in [false, true] {
+            spaces::sf_haystacks(needle, b"abc", b'#', three, |h| {
+                let (n, h) = unsafe { (fake_static(needle), fake_static(h)) };
+                let f = oracle::find_all(h, n);
+                let rv = oracle::rfind_all(h, n);
+                walk_guarded(&Case { rev: false, source: Source::Top, needle: n, hay: h, reference: f, family: "SF" }, r);
+                walk_guarded(&Case { rev: true, source: Source::Top, needle: n, hay: h, reference: rv, family: "SF" }, r);
+                sf_cases.fetch_add(2, Ordering::Relaxed);
+            });
+        }
+    });
+    total.merge(rep);
+    total.bump_by("init-states/SF", sf_cases.load(Ordering::Relaxed));
     // (2) the table families
-    let families = args.str("families", "pad,ln,pf");
+    let families = args.str("families", "pad,ln,pf,zoo");
     let cases = build_cases(thorough, &families, usize::MAX);
     let ncases = cases.len();
     let rep = mcore::par::run_chunks(cases.len() as u64, 16, |lo, hi, r| {
@@ -571,14 +609,14 @@ pub fn run(args: &Args, thorough: bool, total: &mut Report, bounds: &mut Map<Str
             walk_guarded(&cases[i as usize], r);
         }
     });
-    for fam in ["E2pad", "LN", "PF"] {
+    for fam in ["E2pad", "LN", "PF", "PF+zoo"] {
         total.bump_by(&format!("init-states/{}", fam), cases.iter().filter(|c| c.family == fam).count() as u64);
     }
     total.merge(rep);
     // (3) stateright over the LN+PF table; its unique-state count must equal
     // the walker's on the same table
     let mut walker_states = 0u64;
-    let sub: Vec<Case> = build_cases(false, "ln,pf", usize::MAX);
+    let sub: Vec<Case> = build_cases(false, "pad,pf", usize::MAX);
     {
         let mut r = Report::default();
         for c in &sub {
@@ -590,14 +628,14 @@ pub fn run(args: &Args, thorough: bool, total: &mut Report, bounds: &mut Map<Str
     let mut mr = Report::default();
     let (unique, generated, depth) = explore(SubModel::new(sub, false), &mut mr, exhaustive);
     if mr.violation_count == 0 && unique != walker_states {
-        total.machinery_errors.push(format!("stateright found {} unique states but the chain walker {} on the same LN+PF table", unique, walker_states));
+        total.machinery_errors.push(format!("stateright found {} unique states but the chain walker {} on the same E2pad+PF table", unique, walker_states));
     }
     total.merge(mr);
     total.bump_by("init-states/E2", needles.len() as u64 * ht * 2);
     bounds.insert("subs".into(), json!({
         "E2": {"needle_len": [0, nmax], "haystack_len": [0, hmax], "iterators": ["find_iter", "rfind_iter"]},
         "table_families": families, "table_cases": ncases, "actions": "Next (every prefix of every iteration, 3 further calls after exhaustion)",
-        "stateright_cross_check": {"table": "LN+PF", "init_states": nsub, "unique_states": unique, "generated_states": generated, "max_depth": depth, "walker_states_same_table": walker_states},
+        "stateright_cross_check": {"table": "E2pad+PF", "init_states": nsub, "unique_states": unique, "generated_states": generated, "max_depth": depth, "walker_states_same_table": walker_states},
     }));
 }
 
